@@ -462,7 +462,11 @@ func (e *Eng) ghostInit(g GhostDecl, st *State, symbolic bool) Val {
 	case g.Type == "bool":
 		v = mk(KBool, "Bool", "false", types.Typ[types.Bool])
 	case g.Type == "int":
-		v = mk(KInt, "Int", "0", types.Typ[types.Int])
+		if e.bv {
+			v = mk(KInt, "(_ BitVec 64)", "(_ bv0 64)", types.Typ[types.Int])
+		} else {
+			v = mk(KInt, "Int", "0", types.Typ[types.Int])
+		}
 	case g.Type == "byte":
 		if e.bv {
 			v = mk(KInt, "(_ BitVec 8)", "(_ bv0 8)", types.Typ[types.Uint8])
@@ -538,6 +542,8 @@ func (e *Eng) freshGhost(name string, old Val, st *State) Val {
 	default:
 		if e.bv && old.GoT == types.Typ[types.Uint8] {
 			n.T = e.newSym("ghost."+name, "(_ BitVec 8)")
+		} else if e.bv && old.K == KInt {
+			n.T = e.newSym("ghost."+name, "(_ BitVec 64)")
 		} else {
 			n.T = e.newSym("ghost."+name, "Int")
 		}
